@@ -5,7 +5,7 @@ import json, os, subprocess, sys, time
 V = "/verif"
 names = sorted(d for d in os.listdir(V + "/seeded") if os.path.isdir(V + "/seeded/" + d))
 only = sys.argv[1:]
-extra = {"C04-2": ["C02"], "C04-r3": ["C02"], "C16-r9": ["C15"]}  # a crash inside a flush is a crash between statements: caught by C02's torn-flush segment ends
+extra = {"C04-2": ["C02"], "C04-r3": ["C02"], "C16-r9": ["C15"], "C04-r10": ["C02"], "C16-r10": ["C15"]}  # a crash inside a flush is a crash between statements: caught by C02's torn-flush segment ends
 results = {}
 if os.path.exists(V + "/seeded/RESULTS.json"):
     results = json.load(open(V + "/seeded/RESULTS.json"))
